@@ -90,6 +90,20 @@ main (int argc, char **argv)
           }
         printf ("checksalt|%s => %d\n", settings[s], crypt_checksalt (settings[s]));
       }
+  /* the header documents 'setting' and 'input' as scratch space for the application: an old caller stages its
+     strings there and calls repeatedly on the same object */
+  for (int s = 0; settings[s] && s < 22; s += 3)
+    {
+      memset (&d, 0, sizeof d);
+      snprintf (d.input, sizeof d.input, "%s", "staged-passphrase");
+      snprintf (d.setting, sizeof d.setting, "%s", settings[s]);
+      for (int rep = 0; rep < 3; rep++)
+        {
+          errno = 0;
+          char *r = rep == 1 ? crypt_rn (d.input, d.setting, &d, sizeof d) : crypt_r (d.input, d.setting, &d);
+          show (rep == 1 ? "staged crypt_rn" : "staged crypt_r", d.input, d.setting, r, errno);
+        }
+    }
   /* 512-byte phrase */
   {
     static char big[600];
